@@ -374,7 +374,7 @@ def termination(ctx, F, cl, loop_table):
                     for (t2, h2) in b.back_edges():
                         if h2 == head:
                             blocks_ |= b.loop_blocks(h2, t2)
-                    cs_ = A_.g._counters_of(head, blocks_)
+                    cs_ = [c_ for c_ in A_.g._counters_of(head, blocks_) if c_[1] is not None]
                     if cs_:
                         reason = "counting loop: local _%d grows by a positive constant per iteration and is bounded by %d" % (cs_[0][0], cs_[0][1])
                 except Exception:
